@@ -26,6 +26,15 @@ Theorem C15_bulk : forall sch, wf_schema sch = true ->
 Proof. exact bulk_kills. Qed.
 Print Assumptions C15_bulk.
 
+(* The whole call: after a successful delete (policy = mem_policy) or bulk delete (db_policy), EVERY object reachable from the deleted one
+   through cascading relationships in the state before the call is gone (closure over the recursion, not just one step), and no stored
+   reference mentions a deleted object any more (optional references to them have been cleared, link rows removed). *)
+Theorem C15_cascade_closure : forall sch, wf_schema sch = true ->
+  forall policy fuel o s s', inv sch s -> remove sch policy fuel o s = Some s' ->
+  forall p, reach sch policy s o p -> alive s' p = false /\ no_dangling s'.
+Proof. exact closure_alive. Qed.
+Print Assumptions C15_cascade_closure.
+
 (* per relationship, at the step of the deletion that handles it (policy = mem_policy for _delete_, db_policy for the database):
    cascade - every partner is gone afterwards; clear - the partners stay, the references are gone; refuse - an error *)
 Theorem C15_cascade : forall sch, wf_schema sch = true ->
